@@ -147,9 +147,6 @@ func verifH_C20_subscribemock() {
 		for j := 0; j < k; j++ {
 			fs = append(fs, string(verifBytes("f", 1)))
 		}
-		if k == 2 {
-			verifAssume(fs[0] != fs[1])
-		}
 		var quit chan struct{}
 		if verifChoose("quit", 2) == 1 {
 			quit = verifClosed()
